@@ -19,12 +19,6 @@ theorem observeRow_empty_zeros' (L : Layout) (x : Row) (h : RowFits L x) : obser
 def rawOf (L : Layout) (s : State) : PyRt.RawState :=
   { tensor := s.map (encodeRow L), host_num_map := (s.map (·.addr)).zip (List.range s.length) }
 
-theorem forEach_next {α σ : Type} (l : List α) (st : σ) (g : α → σ → σ) :
-    PyRt.forEach (β := Empty) l st (fun x s => .next (g x s)) = .next (l.foldl (fun s x => g x s) st) := by
-  induction l generalizing st with
-  | nil => rfl
-  | cons x xs ih => simp only [PyRt.forEach, List.foldl_cons]; exact ih _
-
 /-- conditional row stores, one per key -/
 def storeRows (c : Addr → Bool) (idx : Addr → Nat) (v : Addr → List Int) (T : List (List Int)) (ks : List Addr) :
     List (List Int) :=
